@@ -133,7 +133,7 @@ def run(rec, hub, tier, seed, shard, nshards, budget):
     if tier == "quick":
         letters, patterns, regimes = "abc", gen.LENGTH_PATTERNS[3], REGIMES
     else:
-        letters, patterns, regimes = "abcd", gen.LENGTH_PATTERNS[4][:3], REGIMES
+        letters, patterns, regimes = "abcd", gen.LENGTH_PATTERNS[4], REGIMES
     subs = gen.ordered_subsets(letters)
     pairs = list(itertools.product(subs, subs))
     space = f"all {len(pairs)} ordered pairs of ordered subsets of {letters} x 7 binary operators x {len(patterns)} length patterns x {len(regimes)} regimes"
@@ -153,6 +153,19 @@ def run(rec, hub, tier, seed, shard, nshards, budget):
         do_pair(rec, hub, U, la, lb, regimes, rng)
         n += 1
     rec.info("pair_cases", n)
+    if tier == "thorough":
+        # five dimensions: sampled ordered pairs of ordered subsets (326^2 pairs are not enumerated)
+        subs5 = gen.ordered_subsets("abcde")
+        U5 = gen.universe(fd, dict(zip("abcde", gen.LENGTH_PATTERNS[5][shard % 3])))
+        rng5 = case_nprng(seed, "c01.pair5", shard, 0)
+        for j in range(400):
+            if not budget.ok():
+                break
+            la, lb = subs5[int(rng5.integers(0, len(subs5)))], subs5[int(rng5.integers(0, len(subs5)))]
+            if int(np.prod(gen.shape_of(U5, tuple(dict.fromkeys(la + lb))))) > 2000:
+                continue
+            rec.set_case(driver="c01.pair5", seed=seed, tier=tier, shard=shard, nshards=nshards, idx=j, a=la, b=lb)
+            do_pair(rec, hub, U5, la, lb, ("tagged", "real"), case_nprng(seed, "c01.pair5", shard, j + 1))
     # scalars, unary, integer dtypes: every ordered subset
     for pat in range(len(patterns)):
         U = gen.universe(fd, dict(zip(letters, patterns[pat])))
@@ -168,10 +181,14 @@ def replay(rec, hub, case):
     fd = hub.fd
     arith.register(hub)
     tier = case.get("tier", "quick")
-    letters, patterns = ("abc", gen.LENGTH_PATTERNS[3]) if tier == "quick" else ("abcd", gen.LENGTH_PATTERNS[4][:3])
+    letters, patterns = ("abc", gen.LENGTH_PATTERNS[3]) if tier == "quick" else ("abcd", gen.LENGTH_PATTERNS[4])
     pat = case["pattern"]
     U = gen.universe(fd, dict(zip(letters, patterns[pat])))
     rec.set_case(**case)
+    if case["driver"] == "c01.pair5":
+        U5 = gen.universe(fd, dict(zip("abcde", gen.LENGTH_PATTERNS[5][case["shard"] % 3])))
+        do_pair(rec, hub, U5, tuple(case["a"]), tuple(case["b"]), ("tagged", "real"), case_nprng(case["seed"], "c01.pair5", case["shard"], case["idx"] + 1))
+        return
     if case["driver"] == "c01.pair":
         rng = case_nprng(case["seed"], "c01.pair", 0, f"{case['idx']}.{pat}")
         do_pair(rec, hub, U, tuple(case["a"]), tuple(case["b"]), REGIMES, rng)
